@@ -1,6 +1,7 @@
 package main
 
 import (
+	"sync/atomic"
 	"encoding/json"
 	"fmt"
 	"go/types"
@@ -610,6 +611,9 @@ func tryReplay(o checkOpts, r *ObligResult, p *Prog, base string, model map[stri
 	}
 	// 1. second solver call: values of all terms of the plan
 	script := r.O.Script(false)
+	if r.Res.Status != "sat" {
+		script = r.O.CandidateScript()
+	}
 	var terms []string
 	seen := map[string]bool{}
 	for _, t := range rp.terms {
@@ -624,16 +628,28 @@ func tryReplay(o checkOpts, r *ObligResult, p *Prog, base string, model map[stri
 	script += "(get-value (" + strings.Join(terms, "\n ") + "))\n"
 	qfile := base + ".model.smt2"
 	os.WriteFile(qfile, []byte(script), 0o644)
-	solver := "z3-new"
+	// the solvers find models of different goals: try each in turn (the one that answered the obligation first)
+	order := []string{"z3-new", "cvc5", "z3"}
 	if r.Res.Solver == "z3" || r.Res.Solver == "cvc5" {
-		solver = r.Res.Solver
+		order = append([]string{r.Res.Solver}, order...)
 	}
-	args := []string{"-T:30", qfile}
-	if solver == "cvc5" {
-		args = []string{"--tlimit=30000", qfile}
+	outs := ""
+	tried := map[string]bool{}
+	for _, solver := range order {
+		if tried[solver] {
+			continue
+		}
+		tried[solver] = true
+		args := []string{"-T:12", qfile}
+		if solver == "cvc5" {
+			args = []string{"--tlimit=12000", qfile}
+		}
+		outb, _ := exec.Command(solver, args...).CombinedOutput()
+		outs = string(outb)
+		if strings.HasPrefix(strings.TrimSpace(outs), "sat") {
+			break
+		}
 	}
-	outb, _ := exec.Command(solver, args...).CombinedOutput()
-	outs := string(outb)
 	if !strings.HasPrefix(strings.TrimSpace(outs), "sat") {
 		return false, "", "model query: " + firstLines(outs, 3)
 	}
@@ -867,7 +883,16 @@ func writeReplay(dir string, o checkOpts, r *ObligResult, p *Prog) string {
 		rec["note"] = "violation of a clause with a listed known finding, but OUTSIDE the listed region: a different defect"
 	}
 	r.Replayed = false
-	if r.Res.Status == "sat" && !o.noReplay {
+	// A quantified goal that fails usually ends as unknown/timeout, not sat. The model query of tryReplay is the same script
+	// WITHOUT the engine's quantified heap axioms: any model of it is only a candidate, and it counts only if the real code,
+	// run on the model's inputs, produces the outputs the model predicts (refutations are trusted only when they replay).
+	candidate := r.Res.Status == "sat" || r.Res.Status == "unknown" || r.Res.Status == "timeout"
+	if candidate && r.Res.Status != "sat" && o.replayBudget != nil {
+		if atomic.AddInt32(o.replayBudget, -1) < 0 {
+			candidate = false
+		}
+	}
+	if candidate && !o.noReplay {
 		ok, testPath, outp := tryReplay(o, r, p, base, model)
 		if testPath != "" {
 			rec["replay_test"] = testPath
@@ -880,7 +905,7 @@ func writeReplay(dir string, o checkOpts, r *ObligResult, p *Prog) string {
 		r.Replayed = ok
 	}
 	if !r.Replayed {
-		if r.Res.Status == "sat" {
+		if r.Res.Status == "sat" || rec["replay_output"] != nil {
 			rec["explanation"] = "the verifier found a model of the negated obligation; it could not be rendered or did not reproduce as a failing concrete input (no-failing-input-found)"
 		} else {
 			rec["explanation"] = "the obligation is discharged on the committed tree and is not accepted by the verifier on this tree (solver: " + r.Res.Status + "); no counterexample available (no-failing-input-found)"
